@@ -19,10 +19,10 @@ S(s) == [k |-> "str", v |-> s]
 M(f) == [k |-> "map", v |-> f]
 L(s) == [k |-> "list", v |-> s]
 
-\* documents: objects in arrays in objects, scalars of every kind, NULL, an empty array, keys with a blank / a keyword / a colon
+\* documents: objects in arrays in objects, scalars of every kind, NULL, an empty array, keys with a blank / a keyword / a colon / a dot
 Doc1 == M([a |-> N(1),
            b |-> L(<<N(10), N(20), N(30)>>),
-           c |-> M(("k" :> S("x")) @@ ("t" :> N(2)) @@ ("a b" :> N(3)) @@ ("as" :> S("kw")) @@ ("x:y" :> N(4))),
+           c |-> M(("k" :> S("x")) @@ ("t" :> N(2)) @@ ("a b" :> N(3)) @@ ("as" :> S("kw")) @@ ("x:y" :> N(4)) @@ ("p.q" :> N(6))),
            m |-> L(<<M([t |-> N(5)]), M([t |-> N(6), u |-> L(<<N(7), N(8)>>)])>>),
            n |-> Null,
            e |-> L(<<>>)])
@@ -38,7 +38,7 @@ F(n) == [k |-> "f", n |-> n]
 K(n) == [k |-> "k", n |-> n]
 I(i) == [k |-> "i", i |-> i]
 Steps == {F("a"), F("b"), F("c"), F("m"), F("t"), F("u"), F("k"), F("zz"),
-          K("k"), K("t"), K("a b"), K("as"), K("x:y"), K("b"),
+          K("k"), K("t"), K("a b"), K("as"), K("x:y"), K("b"), K("p.q"),
           I(0), I(1), I(2), I(-1), I(-2), I(-3), I(-4), I(3)}
 Paths == UNION {[1..n -> Steps] : n \in 1..MaxLen}
 
